@@ -50,6 +50,9 @@ func run(c *hc.Ctx) {
 	if sel("pen") {
 		genPen(c)
 	}
+	if sel("faces") {
+		genFaces(c)
+	}
 	if sel("pdf") {
 		genPDF(c)
 	}
